@@ -496,6 +496,9 @@ func main() {
 			return
 		}
 		for k := 0; k < node.NumShapes; k++ {
+			if !r.Thorough() && len(p) == K-1 && K > 2 && k != 0 && k != 2 && k != 4 && k != 7 {
+				continue // quick tier: the last level uses the sub-menu {empty, txs+events, validator join, aggregate commit}
+			}
 			gen(append(p, k))
 		}
 	}
